@@ -991,7 +991,7 @@ class ParserElement(ABC):
                     value = self._parseNoCache(instring, loc, do_actions, callPreParse)
                 except ParseBaseException as pe:
                     # cache a copy of the exception, without the traceback
-                    cache.set(lookup, pe.__class__(*pe.args))
+                    cache.set(lookup, pe.__class__._from_exception(pe))
                     raise
                 else:
                     cache.set(lookup, (value[0], value[1].copy(), loc))
@@ -1011,7 +1011,9 @@ class ParserElement(ABC):
                             )
                         except TypeError:
                             pass
-                    raise value
+                    # raise a copy, so that callers that update the exception
+                    # do not alter the cached one
+                    raise value.__class__._from_exception(value)
 
                 value = cast(tuple[int, ParseResults, int], value)
                 loc_, result, endloc = value[0], value[1].copy(), value[2]
